@@ -5,6 +5,7 @@ import (
 	"math/rand"
 	"os"
 	"path/filepath"
+	"regexp"
 	"sort"
 	"strings"
 	"time"
@@ -180,10 +181,21 @@ func checkC09(c *Ctx) {
 		}
 		hcases = append(hcases, &c09Case{Text: strings.ReplaceAll(text, "@@PKG@@", "scratch/x"), Flags: fl, Feature: "hostile spellings"})
 	}
+	// ordinary grammars with logging actions over the whole $-vocabulary ($10 and above included)
+	for _, g := range append(curatedActionSyn(), curatedErrSyn()...) {
+		for i := range g.Prods {
+			if g.Prods[i].Action == "" && len(g.Prods[i].Body) > 0 {
+				g.Prods[i].Action = "log"
+			}
+		}
+		hcases = append(hcases, &c09Case{Text: g.render(), Flags: []string{"a"}, Feature: "valid action expressions"})
+	}
 	mh := c.NewModule("c09h")
+	mh.installVlog()
 	hruns := make([]GoccRun, len(hcases))
 	parallel(len(hcases), func(i int) {
 		hcases[i].Sub = fmt.Sprintf("h%04d", i)
+		hcases[i].Text = strings.ReplaceAll(hcases[i].Text, "@@PKG@@", "scratch/"+hcases[i].Sub)
 		hruns[i] = mh.GoccExt(hcases[i].Sub, "g.bnf", []byte(hcases[i].Text), 60*time.Second, flagArgs(hcases[i].Flags)...)
 	})
 	var hb []*c09Case
@@ -366,6 +378,10 @@ func replayGoccComplete(c *Ctx, r *Replay) (bool, string) {
 	tag := fmt.Sprintf("c09r%03d", c.tlcSeq)
 	c.mu.Unlock()
 	m := c.NewModule(tag)
+	m.installVlog()
+	// the import path of the generated token package depends on the output directory
+	text = regexp.MustCompile(`"scratch/[a-z]+[0-9]+/token"`).ReplaceAllString(text, `"scratch/g000/token"`)
+	text = strings.ReplaceAll(text, "@@PKG@@", "scratch/g000")
 	run := m.GoccExt("g000", "g.bnf", []byte(text), 200*time.Second, flags...)
 	if run.TimedOut {
 		return true, "gocc did not terminate within 200 s"
